@@ -15,7 +15,7 @@ from gens import abelian_table, atoms_of, base_cells, make_supercell, random_dat
 from permcorr import fake_cutoff, impl_cpt_labels, model_cls, model_labels_check, random_near
 from tensors import full_basis_tensors, perm_asym
 
-UNITS = ["Tables", "BatchGen", "ShapesCombos", "ShapesBasis", "ShapesPerm", "ShapesAuxPerm3", "SkelBasis", "SkelMat", "SkelPerm", "ShapesApi", "SkelApi"]
+UNITS = ["Tables", "BatchGen", "ShapesCombos", "ShapesBasis", "ShapesPerm", "ShapesAuxPerm3", "SkelBasis", "SkelMat", "SkelPerm", "ShapesApi", "SkelApi", "SolverStruct", "ShapesSolvers", "SkelSolvers", "IndepGen", "ShapesSpg", "ShapesReps", "SkelSpg"]
 PROPS = ["props/C01.v"]
 EXTRA = ["theories/Pipeline.vo"]
 ASSUMPTIONS = [
